@@ -149,9 +149,22 @@ func canonInit() {
 	}
 }
 
+// asciiLower lower-cases the letters A-Z only. Flags and mailbox attributes are
+// case-insensitive in US-ASCII; strings.ToLower would also map U+0130 to "i"
+// and U+212A to "k", turning a different keyword into a well-known flag.
+func asciiLower(s string) string {
+	b := []byte(s)
+	for i, ch := range b {
+		if 'A' <= ch && ch <= 'Z' {
+			b[i] = ch + ('a' - 'A')
+		}
+	}
+	return string(b)
+}
+
 func canonicalFlag(s string) imap.Flag {
 	canonOnce.Do(canonInit)
-	if flag, ok := canonFlag[strings.ToLower(s)]; ok {
+	if flag, ok := canonFlag[asciiLower(s)]; ok {
 		return flag
 	}
 	return imap.Flag(s)
@@ -159,7 +172,7 @@ func canonicalFlag(s string) imap.Flag {
 
 func canonicalMailboxAttr(s string) imap.MailboxAttr {
 	canonOnce.Do(canonInit)
-	if attr, ok := canonMailboxAttr[strings.ToLower(s)]; ok {
+	if attr, ok := canonMailboxAttr[asciiLower(s)]; ok {
 		return attr
 	}
 	return imap.MailboxAttr(s)
